@@ -47,10 +47,31 @@ def kex_of(sc):
             "ECDH": "ecdh", "SRP": "srp"}[info.kex]
 
 
-def run_one(sc, seed, victim, script, meter=False, memory=False):
+def mark_alerts(pair, victim):
+    """Record how many bytes the victim had put on the wire when it decided
+    to send a fatal alert: the alert must be on the wire (not in a write
+    buffer) by the time the failing call returns."""
+    ep = pair.ep(victim)
+    pipe = pair.world.c2s if victim == "C" else pair.world.s2c
+    marks = []
+    orig = ep._sendError
+
+    def _sendError(*a, **k):
+        marks.append(len(pipe.log))
+        return orig(*a, **k)
+    ep._sendError = _sendError
+    pair.alert_marks = (marks, pipe)
+
+
+def run_one(sc, seed, victim, script, meter=False, memory=False,
+            keep_socket=False):
     SEAMS.reset(seed, sc.name)
     w = World()
     pair = Pair(w)
+    mark_alerts(pair, victim)
+    if keep_socket:
+        # the application keeps the socket after the TLS connection ends
+        pair.ep(victim).closeSocket = False
     pup_conn = pair.s if victim == "C" else pair.c
     pup = Puppet(pup_conn, script)
     m = None
@@ -84,6 +105,11 @@ def judge(pair, out, victim, m, base_calls, rx_bytes):
         if isinstance(e, E.TLSLocalAlert):
             if e.level != 2:
                 fails.append(({"kind": "non-fatal-local-alert"}, repr(e)))
+            marks, pipe = getattr(pair, "alert_marks", ([], None))
+            if marks and len(pipe.log) <= marks[0]:
+                fails.append(({"kind": "alert-not-on-wire"},
+                              "%r raised but nothing was written to the "
+                              "socket after the decision to send it" % (e,)))
         elif isinstance(e, (E.TLSRemoteAlert, E.TLSAbruptCloseError,
                             OSError)):
             pass
@@ -191,6 +217,43 @@ def case(item):
 
 
 # ---------------------------------------------------------------- semantic
+def keep_socket_case(item):
+    """closeSocket=False (the application keeps the socket): every message
+    to the victim replaced by an unknown handshake type / cut short; the
+    alert must still reach the wire before the call returns."""
+    idx, tier, seed, victim = item
+    sc = scenarios(tier)[idx]
+    rec = {"scenario": sc.name, "victim": victim, "n": 0, "fails": [],
+           "sigs": set()}
+    r = run_one(sc, seed, victim, {}, keep_socket=True)
+    pair, pup, out, m = r
+    if out["C"].status != "ok" or out["S"].status != "ok":
+        rec["fails"].append(({"kind": "honest-failed", "keep_socket": True},
+                             repr(out), None))
+        return rec
+    for (i, tok) in list(pup.honest):
+        if tok in ("CCS", "ALERT", "APP"):
+            continue
+        for label, act in (("unknown-type", ("replace", _hs(99, b""))),
+                           ("cut", ("mutate", lambda d: bytes(
+                               d[:1] + (len(d) - 5).to_bytes(3, "big") +
+                               d[4:-1]) if len(d) > 5 else None))):
+            r = run_one(sc, seed, victim, {i: act}, keep_socket=True)
+            if r is None:
+                continue
+            pair2, pup2, out2, m2 = r
+            rec["n"] += 1
+            sig, fails = judge(pair2, out2, victim, None, 0, 0)
+            rec["sigs"].add((tok, label, sig))
+            for (k, text) in fails:
+                k = dict(k)
+                k["msg"] = tok
+                k["keep_socket"] = True
+                rec["fails"].append((k, text, label))
+    rec["sigs"] = sorted(rec["sigs"], key=repr)
+    return rec
+
+
 def _hs(t, body):
     return bytes([t]) + len(body).to_bytes(3, "big") + bytes(body)
 
@@ -1186,7 +1249,9 @@ def run(res, tier, seed):
         "values (DH/ECDH parameters, extensions, certificates, compressed "
         "certificates incl. bombs); record level: all 256 first bytes, "
         "empty / oversized records, SSLv2 headers; post-handshake: NST, "
-        "KeyUpdate, CertificateRequest, PHA flight, heartbeat; one mutation "
+        "KeyUpdate, CertificateRequest, PHA flight, heartbeat; every message "
+        "replaced / cut with the victim keeping its socket "
+        "(closeSocket=False), alert-on-the-wire oracle; one mutation "
         "per execution; distinct by (flavour, role, message, field, value)")
     scs = scenarios(tier)
     items = [(i, tier, seed, v) for i in range(len(scs)) for v in ("C", "S")]
@@ -1206,6 +1271,21 @@ def run(res, tier, seed):
                           {"scenario": rec["scenario"],
                            "victim": rec["victim"], "mutation": label})
     res.section("structural", scenario_roles=len(items), executions=n)
+    nk = 0
+    for rec in pmap(keep_socket_case, items, chunksize=1):
+        nk += rec["n"]
+        res.count(rec["n"])
+        for s in rec["sigs"]:
+            res.outcome(("keep-socket",) + tuple(s))
+        for (k, text, label) in rec["fails"]:
+            res.violation(k, {"scenario": rec["scenario"],
+                              "victim": rec["victim"], "mutation": label,
+                              "fail": text, "closeSocket": False},
+                          {"scenario": rec["scenario"], "keep_socket": True,
+                           "victim": rec["victim"], "mutation": label})
+    res.section("keep_socket", scenario_roles=len(items), executions=nk,
+                note="closeSocket=False on the victim; alert must be on the "
+                     "wire when the failing call returns")
     DER_DEPTH[0] = 4 if tier == "quick" else 9
     cases = semantic_cases()
     ns = 0
